@@ -15,6 +15,13 @@
 //!   kind 5  the rogue peer of kind 1 over loopback TCP (multistream-select, Noise, and the yamux
 //!           negotiation in transport mode) against a victim's negotiate_connection that dials
 //!           {none, the rogue's identity, another identity, the key in the payload}.
+//!   kind 6  two complete Litep2p nodes through the public API (TCP, WebSocket; QUIC in harness_c01x),
+//!           right / wrong peer id dialed;
+//!   kind 9  the real TransportManager over a scripted transport: its own comparison of the reported
+//!           peer with the dialed one (behind every transport);
+//!   kinds 7, 8 (harness_c01x only, tools/c01_extra_streams.sh, run by ./check in both tiers): the TLS
+//!           certificate verifier of the QUIC transport on crafted extension lists, and the WebRTC
+//!           Noise path (with_prologue / get_remote_peer_id) against a snow responder.
 //! A case line is `kind nparams params.. observed..`; only the parameters are read back on
 //! replay, everything observed is regenerated.
 use crate::util::*;
